@@ -84,7 +84,7 @@ func runC03(c *core.Ctx) {
 	// ---------------- R2: decided-and-validated before post-consensus signing
 	decidedExit := "r0=true,r1=nonnil,err=nil"
 	ensures(c, "C03-R2", runnerPkg+".(*BaseRunner).baseConsensusMsgProcessing", decidedExit, []Req{
-		{"running-duty", "T(ssv/protocol/v2/ssv/runner.BaseRunner.hasRunningDuty@2(p0))", "a finished or absent duty must not sign (checked after the controller processed the message)"},
+		{"running-duty", "T(ssv/protocol/v2/ssv/runner.BaseRunner.hasRunningDuty@*(p0))", "a finished or absent duty must not sign (checked after the controller processed the message)"},
 		{"not-finished", "F(p0.State.Finished)", "hasRunningDuty must mean State.Finished==false"},
 		{"decided-correctly", "T(ssv/protocol/v2/ssv/runner.BaseRunner.didDecideCorrectly(p0, *ProcessMsg(p0.QBFTController, p1, p3)#0)#0)", "the decision must be checked against the running instance"},
 		{"decided-msg-nonnil", "nonnil(ssv/protocol/v2/qbft/controller.Controller.ProcessMsg(p0.QBFTController, p1, p3)#0)", "no decided message, no signature"},
